@@ -259,6 +259,8 @@ ASSUMPTIONS = [
     'sandbox memory is one heap object of symbolic size 16..4096 bytes registered as the only live region (object view); allocations by make_unique are bounded by 4096 elements (VSTD_NEW_MAX_ELEMS)',
     'M-mem: std::unique_ptr as an owning raw pointer, std::make_unique as a fresh zero-initialised heap object (never null), std::string as the (pointer, length) of its constructing call',
     'the verifier is an arbitrary function that returns; its precondition is what RLBox must guarantee about the object it is handed',
+    'volatile-receiver pointer form: 8 readable guard bytes follow the region (guard page), so that reading a pointee that starts on the last bytes of the region does not fault; the pointer itself is arbitrary at every read',
+    'std::memcpy in these units is cbmc\'s own byte copy (with its pointer checks on source and destination ranges)',
 ]
 TRUSTED = ['goto-instrument --nondet-volatile as the model of concurrent modification', 'libstdc++ unique_ptr/string semantics (M-mem)']
 MANIFEST = {
